@@ -322,9 +322,19 @@ def _impl(op, a, P):
         used.sip(lambda: dihedral_group(n + 1), 2)
         used.sip(lambda: dihedral_group(max(n - 1, 0)), 1)
         used.sip(lambda: dihedral_group(n), n)
-        if op == "dgroup":
-            return used.twice(lambda: guarded(lambda: fseqs(sorted(tuple(p) for p in dihedral_group(n)))))
-        return used.twice(lambda: guarded(lambda: str(sum(1 for _ in dihedral_group(n)))))
+        def listing():
+            # two listings alive at once: one complete listing made while another is suspended half-way, and two
+            # consumed in lockstep; every one of them has to be the same group
+            full, pieced = used.interleaved(lambda: dihedral_group(n), n // 2 + 1)
+            za, zb = [], []
+            for x, y in zip(dihedral_group(n), dihedral_group(n)):
+                za.append(x)
+                zb.append(y)
+            outs = [sorted(tuple(p) for p in g) for g in (dihedral_group(n), full, pieced, za, zb)]
+            if any(o != outs[0] for o in outs[1:]):
+                return "UNSTABLE-INTERLEAVED:" + "|".join(fseqs(o) for o in outs)
+            return fseqs(outs[0]) if op == "dgroup" else str(len(outs[0]))
+        return used.twice(lambda: guarded(listing))
     raise ValueError("unknown op " + op)
 
 
